@@ -143,3 +143,25 @@ func TestExhaustiveBig(t *testing.T) {
 }
 
 func TestRegressBig(t *testing.T) { run.Regress(t, bigSpec) }
+
+// TestExhaustiveSizes clones geometries of every number of coordinates from 8 to 2 500
+// (thorough: 10 000), the kinds and layouts taking turns.
+func TestExhaustiveSizes(t *testing.T) {
+	shard, shards := run.Shard()
+	hi := 2500
+	if run.Thorough() {
+		hi = 10000
+	}
+	kinds := []string{"LineString", "LinearRing", "Polygon", "MultiPoint", "MultiLineString", "MultiPolygon"}
+	layouts := []geom.Layout{geom.XY, geom.XYZ, geom.XYM, geom.XYZM, geom.Layout(5)}
+	for n := 8; n <= hi; n++ {
+		if n%shards != shard {
+			continue
+		}
+		c := BigCase{Kind: kinds[n%len(kinds)], Layout: int(layouts[(n/len(kinds))%len(layouts)]), N: n}
+		ev.Default.CaseHash(uint64(n)|1<<40, "size-sweep", true, func() any { return c })
+		if !run.One(t, bigSpec, c) {
+			return
+		}
+	}
+}
